@@ -96,6 +96,9 @@ def bigLsh (x k : Int) : Int := x * 2 ^ k.toNat
 /-- `z.Rsh(x, k)`: arithmetic shift = floor division by `2^k` (`Int.shiftRight`) -/
 def bigRsh (x k : Int) : Int := x >>> k.toNat
 
+/-- `x.Bit(i)`: bit `i` of the (infinite two's-complement) expansion of `x` -/
+def bit (x i : Int) : Int := (x >>> i.toNat) % 2
+
 /-- `len(x.Bits())` on a 64-bit platform: number of 64-bit words of `|x|` -/
 def wordLen (x : Int) : Int := ((x.natAbs.log2 + 64) / 64 * (if x = 0 then 0 else 1) : Nat)
 /-- `x.BitLen()` -/
@@ -107,15 +110,6 @@ def bitLen (x : Int) : Int := (if x = 0 then 0 else x.natAbs.log2 + 1 : Nat)
 
 /-- `toTwosComplement(res, x, bits)`: `SignedBigIntToSizedBigEndianBytes` read back unsigned -/
 def toTwosComplement (x : Int) (bits : Int) : Int := x % 2 ^ bits.toNat
-
-/-- number of bytes of the minimal big-endian magnitude (`len(x.Bytes())`) -/
-def byteLen (x : Int) : Nat := if x = 0 then 0 else x.natAbs.log2 / 8 + 1
-
-/-- `fromTwosComplement(res)`: `BigEndianBytesToSignedBigInt(res.Bytes())` — the sign is read from
-    the top bit of the *minimal* byte string of `res` (this is what the code does) -/
-def fromTwosComplement (x : Int) : Int :=
-  if x = 0 then 0
-  else if x ≥ 2 ^ (8 * byteLen x - 1) then x - 2 ^ (8 * byteLen x) else x
 
 /-- `truncate(x, maxWords)`: keep the low `maxWords` 64-bit words of the magnitude, keep the sign -/
 def truncateWords (x : Int) (maxWords : Int) : Int :=
